@@ -108,12 +108,35 @@ Definition cwitness_schedule (arity : nat) (progs : list (list (ufun Z))) (w : n
   repeat w (cbudget arity (nth w progs [])) ++
   flat_map (fun t => repeat t (cbudget arity (nth t progs []))) (seq 0 (length progs)).
 
+(* finished, and the mutex has been released *)
+Definition call_finished (c : cconfig Z) : bool :=
+  all_finished (abs c) && match cc_mutex c with None => true | Some _ => false end &&
+  forallb (fun th => match ct_pc th with CUnlockA => false | _ => true end) (cc_threads c).
+
 Definition run_case_impl (c : case) : outcome * bool :=
   let arity := Z.to_nat (c_arity c) in
   let progs := map (map zfun) (c_progs c) in
   let w := match c_ran c with (t, _) :: _ => Z.to_nat t | [] => 0 end in
-  let fin := abs (crun 0%Z arity (cinit 0%Z arity progs) (cwitness_schedule arity progs w)) in
-  (outcome_of fin, all_finished fin).
+  let fin := crun 0%Z arity (cinit 0%Z arity progs) (cwitness_schedule arity progs w) in
+  (outcome_of (abs fin), call_finished fin).
+
+(* every schedule of the transcription, for small scenarios (this is where a goroutine blocked on
+   the mutex and the slow path that finds done = 1 under the mutex are exercised) *)
+Fixpoint cexplore (arity : nat) (fuel : nat) (c : cconfig Z) : option (list outcome) :=
+  match fuel with
+  | O => None
+  | S fuel' =>
+    if call_finished c then Some [outcome_of (abs c)] else
+    fold_left (fun acc t =>
+      match acc, cstep 0%Z arity c t with
+      | None, _ => None
+      | Some l, None => Some l
+      | Some l, Some c' => match cexplore arity fuel' c' with None => None | Some l' => Some (l' ++ l) end
+      end) (seq 0 (length (cc_threads c))) (Some [])
+  end.
+
+Definition csmall (arity : nat) (progs : list (list (ufun Z))) : bool :=
+  (length progs <=? 2) && (fold_left (fun acc p => acc + budget arity p) progs 0 <=? 16).
 
 Definition check_case (c : case) : bool :=
   let arity := Z.to_nat (c_arity c) in
@@ -124,6 +147,12 @@ Definition check_case (c : case) : bool :=
   fin && outcome_eqb o obs && fin2 && outcome_eqb o2 obs &&
   (if small arity progs then
      match explore arity 64 (init 0%Z arity progs) with
+     | Some outs => existsb (outcome_eqb obs) outs
+     | None => false
+     end
+   else true) &&
+  (if csmall arity progs then
+     match cexplore arity 96 (cinit 0%Z arity progs) with
      | Some outs => existsb (outcome_eqb obs) outs
      | None => false
      end
